@@ -8,7 +8,7 @@ suspension point (= every crash point of the task) and a backend fault possible 
 import z3
 
 from contracts import c02_paths, c10_limits, c11_ports, server_units  # noqa: F401
-from contracts.server_units import codes, guard_c03, guard_c04
+from contracts.server_units import codes, guard_c02, guard_c03, guard_c04
 from pyvc.core import SV, PathEnd, PyRaise, Unsupported, fresh
 from pyvc.models_aio import TaskModel
 from pyvc.session import Reader, Writer, b_and, b_implies, b_not, b_or, tt
@@ -78,6 +78,7 @@ def make_worker_setup(verb, meth, mode):
         sess = Session(u, mode=mode, ports=False, path_theory=False)
         sess.guards.append(("C03", guard_c03))
         sess.guards.append(("C04", guard_c04))
+        sess.guards.append(("C02", guard_c02))
         sess.verb = verb
         u.sess = sess
         spawned = []
@@ -86,10 +87,13 @@ def make_worker_setup(verb, meth, mode):
         f = it.getattr_(sess.server, meth)
         # phase 1: the command handler (its own obligations belong to the handler unit, not to this one)
         n_before = len(it.ctx.vcs)
+        it.ctx.muted = True
         try:
             r = it.await_(it.call(f, [sess.conn, rest], {}))
         except PyRaise:
             raise PathEnd("handler raised: no worker")
+        finally:
+            it.ctx.muted = False
         del it.ctx.vcs[n_before:]
         if not spawned:
             raise PathEnd("handler did not start a transfer")
@@ -98,7 +102,9 @@ def make_worker_setup(verb, meth, mode):
         sess.replies.clear()
         it.hooks["on_spawn"] = None
         # time passes between the 150 reply and the moment the task runs
+        it.ctx.muted = True
         sess.on_suspend(it, "task-start")
+        it.ctx.muted = False
         del it.ctx.vcs[n_before:]
         sess.owned_streams = []
         sess.track_detach = True
@@ -215,7 +221,7 @@ from pyvc.core import as_int  # noqa: E402
 
 def define_worker_units():
     for verb, (meth, wq) in WORKERS.items():
-        c = contract(SERVER, f"Server.{meth}", props=["C12", "C13", "C14", "C05", "C16", "C04", "C03", "C17", "C01", "C18"], name=f"{wq.split('.')[-1]}@{verb}")
+        c = contract(SERVER, f"Server.{meth}", props=["C12", "C13", "C14", "C05", "C16", "C04", "C03", "C17", "C01", "C18", "C02"], name=f"{wq.split('.')[-1]}@{verb}")
         c.setup = make_worker_setup(verb, meth, "SEQ")
         c.uses = [(SERVER, "Server.get_paths#opaque"), (SERVER, "User.get_permissions#summary")]
         c.cancellable = True
